@@ -625,6 +625,39 @@ fn explore(ctx: &Ctx, rep: &mut Report) {
     let mut r = r;
     r.mark_exhaustive("family/every-byte-every-offset", "all 256 byte values at every offset 0..=64 x 4 carry-in states x 3 suffixes (+ a 131-byte total)");
     rep.merge(r);
+    // (c2) homogeneous runs: a run of ONE byte value long enough to fill whole 16/32/64-byte chunks, under each
+    // carry-in state, followed by each kind of terminator. Chunked engines are tempted to skip a chunk that holds
+    // nothing "interesting"; what such a fast path must still do (consume a pending escape, end a pending value,
+    // count quotes) depends on the carried state, and only a chunk-filling uniform run exercises it.
+    let fills: [u8; 10] = [b' ', b'x', b'1', b'/', b',', b'\n', 0x80, 0xe4, 0x00, b'-'];
+    let terms: [&[u8]; 8] = [b"", b"\"", b"\\", b"]", b"a", b" ", b"\",1]", b"\\\"x\""];
+    let run_lens: Vec<usize> = if ctx.quick() { gen::boundaries(&[1, 16, 32, 48, 64, 96, 128], 131) } else { (1..=131).collect() };
+    let run_offs: Vec<usize> = if ctx.quick() { gen::boundaries(&[0, 16, 32, 48, 64], 66) } else { (0..=65).collect() };
+    let nl = run_lens.len() as u64;
+    let no = run_offs.len() as u64;
+    let r = par_range_in(ctx, "family/uniform-runs", fills.len() as u64 * nl * no, 16, |i, rep| {
+        let f = fills[(i / (nl * no)) as usize];
+        let len = run_lens[((i / no) % nl) as usize];
+        let p = run_offs[(i % no) as usize];
+        let mut buf = Vec::with_capacity(300);
+        for carry in CARRY {
+            if !prefix(&mut buf, p, carry) {
+                continue;
+            }
+            buf.extend(std::iter::repeat(f).take(len));
+            let end = buf.len();
+            for t in terms {
+                buf.truncate(end);
+                buf.extend_from_slice(t);
+                rep.input();
+                check(&e, &buf, t.is_empty(), rep);
+            }
+        }
+        rep.distinct(&("uniform", f, len, p % 64));
+    });
+    let mut r = r;
+    r.mark_exhaustive("family/uniform-runs", "runs of one byte value (10 class representatives incl. non-ASCII) of every length in the stated set at every offset of the stated set x 4 carry-in states x 8 terminators (incl. end of input)");
+    rep.merge(r);
     // (d) periodic fills to 4 KiB
     let per = ctx.pick(3u32, 4u32);
     let r = par_strings(ctx, "family/periodic-4KiB", &ca, per, |s, _idx, rep| {
